@@ -123,6 +123,7 @@ class StreamT(Shape):
         arr = mk.const(name + '.B', ArrS)
         n = mk.const(name + '.len', IntS)
         mk.assume(n >= 0)
+        mk.assume(n < 2 ** 62)       # a real stream is smaller than the address space
         mk.byte_array(arr)
         pos = mk.const(name + '.pos', IntS)
         mk.assume(pos >= 0)
@@ -251,3 +252,19 @@ class OpaqueT(Shape):
 
 
 Any = OpaqueT()
+
+
+class ChunksOf(Shape):
+    """a list of byte chunks that concatenate to a contiguous view of the array of
+    the stream bound to the given ghost/variable name (resolved by the loop havoc)"""
+
+    def __init__(self, stream_expr):
+        self.stream_expr = stream_expr
+
+    def make(self, mk, name, idx=None):
+        from .methods import ChunkList
+        lo = mk.const(name + '.lo', IntS)
+        n = mk.const(name + '.n', IntS)
+        mk.assume(n >= 0)
+        arr = self.resolve_arr(mk)
+        return ChunkList(SBytes(arr, lo, n))
